@@ -73,6 +73,33 @@ class Ctx:
         if text not in self.assumptions:
             self.assumptions.append(text)
 
+    _sub_cache: dict = {}
+
+    def import_clauses(self, other: str, rules, as_rule: str, pick=None, minimum: int = 1):
+        """Mechanisms are shared between properties (a record that the delay setter does not reach breaks the synapse
+        property and the connection-delay property alike).  Re-decide the named clauses of property `other` on the same
+        program and record them here under `as_rule/<their rule>`; `pick(construct)` narrows them to the shared mechanism.
+        Fails closed when fewer than `minimum` instances are found."""
+        import importlib
+        if getattr(self, "_importing", False):
+            return 0            # shared clauses are not imported transitively
+        key = (id(self.prog), other, self.tier)
+        sub = Ctx._sub_cache.get(key)
+        if sub is None:
+            sub = Ctx(self.prog, other, self.tier)
+            sub._importing = True
+            importlib.import_module(f"sa.props.{other.lower()}").check(sub)
+            Ctx._sub_cache[key] = sub
+        n = 0
+        for o in sub.obs:
+            base = o.rule.split("/")[0]
+            if (o.rule in rules or base in rules) and not o.rule.endswith("/count") and (pick is None or pick(o.construct)):
+                n += 1
+                self.obs.append(Obligation(f"{as_rule}/{o.rule}", o.construct, o.ok, o.detail, o.where, o.digest))
+        self.analysed_funcs |= sub.analysed_funcs if n else set()
+        self.require(as_rule, f"clauses shared with {other} {sorted(rules)}", n, minimum)
+        return n
+
     def note(self, text: str):
         self.notes.append(text)
 
